@@ -396,8 +396,25 @@ func (c *compiler) createListEquals(listType *ddpIrListType, declarationOnly boo
 	)
 
 	// compare single elements
-	// primitive types can easily be compared
-	if listType.elementType.IsPrimitive() {
+	if listType.elementType == c.ddpfloattyp {
+		// Kommazahlen are compared by value like the gleich operator does (0,0 equals -0,0, NaN equals nothing), not bitwise
+		c.createFor(zero, c.forDefaultCond(list1_len),
+			func(index value.Value) {
+				list1_arr, list2_arr := c.loadStructField(list1, list_arr_field_index), c.loadStructField(list2, list_arr_field_index)
+				element1 := c.cbb.NewLoad(ddpfloat, c.indexArray(list1_arr, index))
+				element2 := c.cbb.NewLoad(ddpfloat, c.indexArray(list2_arr, index))
+				elements_unequal := c.cbb.NewFCmp(enum.FPredUNE, element1, element2)
+
+				c.createIfElse(elements_unequal, func() {
+					c.cbb.NewRet(constant.False)
+				},
+					nil,
+				)
+			},
+		)
+
+		c.cbb.NewRet(constant.True)
+	} else if listType.elementType.IsPrimitive() { // other primitive types can easily be compared
 		// return memcmp(list1->arr, list2->arr, sizeof(T) * list1->len) == 0;
 		size := c.cbb.NewMul(c.sizeof(listType.elementType.IrType()), list1_len)
 		memcmp := c.memcmp(c.loadStructField(list1, list_arr_field_index), c.loadStructField(list2, list_arr_field_index), size)
